@@ -133,3 +133,10 @@ proof('C05', 'Machine-checked (kernel only) for the fastmath build: C05.roundtri
       'cubes with one fused multiply-add and applies the inverse matrix (dot-product rounding analysis). The real identity behind it is INV*K = I for the two constant tables of the source: checked in exact rational arithmetic on the regenerated constants (mat_id: row sums of |INV*K - I| at most 6e-7), '
       'so an inverse table, bias or cube law that no longer agrees with the forward constants breaks the theorem. With fastmath off cbrtf is the libm parameter of the model; that build rests on correspondence + oracle.',
       'Lean 4: end-to-end rounding-error analysis of the round trip over the reals + exact rational INV*K = I check on regenerated constants; correspondence ties the model to the code')
+
+proof('C19', 'Every clause is machine-checked (kernel only), for all finite operands of magnitude <= 2, both formats (the binary64 proofs are generated from the binary32 ones, like the Rust generic is instantiated) and both FMA modes: '
+      'mul_vec/mul_arr, mul_mat (every entry), dot, cross, component_mul within 3e-6 absolute, hence within 1e-5*max(1,|exact|), of the exact products (dot-product rounding analysis); scalar_div within 1e-5*max(1,|q|) of the real quotient (division lemma); '
+      'transpose an exact involution, scalar_div/component_mul element-wise, mul_vec = mul_arr (structural); identity()*v, identity()*A and A*identity() return every entry with EXACTLY its real value (identity_*: exactness of correct rounding on representable results, '
+      'from the monotonicity of rounding); and for |det A| >= 1/2 all 18 entries of A*invert(A) and invert(A)*A are within 1e-4 of the identity (invert_accurate32/64, proved bound 6.3e-5: minors, determinant, nine divisions, adjugate identity A adj(A) = det(A) I, final dot products; '
+      'the determinant error is common to all entries and only scales the product). Zero-sign: "exactly" refers to real values, -0 and +0 are identified, as in the correspondence.',
+      'Lean 4 rounding-error analysis over the reals (products, Cramer inverse) + exactness/monotonicity of rounding (identity); correspondence ties the model to the code')
